@@ -313,6 +313,20 @@ class SymbolicTensorNetwork:
                 raise ValueError(f"to-be joined open axis index {joinax[1]} of second network out of range")
             if self.shape[joinax[0]] != other.shape[joinax[1]]:
                 raise ValueError(f"to-be joined open axes {joinax[0]} and {joinax[1]} have different dimensions")
+        # every (fused) bond must retain at least two legs after removing the joined open axes, as required for a
+        # consistent network; e.g., both ends of an identity wire cannot be joined with both ends of another one
+        nets = (self, other)
+        # bond attached to each to-be joined open axis, labeled by network; fused pairwise as by `merge_bonds` below
+        open_bids = {(i, joinax[i]): (i, nets[i].tensors[-1].bids[joinax[i]]) for joinax in join_axes for i in (0, 1)}
+        fused_bids = dict(open_bids)
+        for joinax in join_axes:
+            bid0, bid1 = fused_bids[0, joinax[0]], fused_bids[1, joinax[1]]
+            fused_bids = {ax: (bid0 if bid == bid1 else bid) for ax, bid in fused_bids.items()}
+        for fbid in set(fused_bids.values()):
+            axes = [ax for ax in fused_bids if fused_bids[ax] == fbid]
+            num_legs = sum(len(nets[i].bonds[bid].tids) for i, bid in set(open_bids[ax] for ax in axes))
+            if num_legs - len(axes) < 2:
+                raise ValueError("joining the specified open axes would leave a bond with less than two legs")
         num_open_axes_orig = self.num_open_axes
         # require a deep copy since the IDs in the 'other' network might change
         other = copy.deepcopy(other)
